@@ -119,6 +119,7 @@ class ParamsFacts:
         self.body_keys = set()  # keys read by hand in the ctor body
         self.check = None       # set of keys in check_params, None if no call
         self.exports = []       # (key, kind, member or None, where)
+        self.export_conds = {}  # key -> (condition text, where) for exports that are executed only under a condition
         self.base_init = False
         self.base_get = False
         self.has_ctor = False
@@ -207,6 +208,11 @@ def extract_params(units):
                     if c['k'] != 'call':
                         continue
                     nm = callee_name(c)
+                    if nm in ('put', 'params_export_child', 'add_child', 'put_child', 'add') and c.get('a'):
+                        conds = [show(a_['c'])[:40] for a_ in f.ancestors(c) if a_['k'] in ('if', 'cond') and a_.get('c') is not None]
+                        if conds:
+                            kk = first_str(c['a'][2]) if nm == 'params_export_child' and len(c['a']) == 4 else first_str(c['a'][0])
+                            pf.export_conds[kk] = (conds[0], f.where(c))
                     if nm == 'put' and call_object(c) is not None and is_ref_to(call_object(c), pd) and len(c.get('a', [])) >= 2:
                         key = first_str(c['a'][0])
                         pf.exports.append((key, 'value', member_of_this(c['a'][1]), f.where(c), show(c['a'][1])))
@@ -294,6 +300,9 @@ def rule_A(ck, facts):
                         det = 'key "%s" imported as %s but exported as %s at %s' % (key, kind, kd, where)
                     else:
                         det = 'key "%s" is exported from `%s`, which is not the data member %s (at %s)' % (key, txt, m, where)
+            if ok and key in pf.export_conds and (q, m) not in PAYLOAD_FIELDS:
+                ok = False
+                det = 'key "%s" is exported only under the condition `%s` (at %s): import followed by export is not the identity when the condition is false' % (key, pf.export_conds[key][0], pf.export_conds[key][1])
             ck.ob('A3.export', '%s|%s' % (q, m), w, ok, det)
         imported_keys = {k for k, _ in pf.imports.values()}
         for (key, kind, mem) in exps:
@@ -626,6 +635,7 @@ def rule_C(ck, units):
     ck.rule('C.dispatch-forward', 'sibling agreement: in one switch every case forwards to the same member of the wrapped object, and that member bears the name of the wrapper member', 60)
     ck.rule('C.dispatch-prm', 'the wrapped object is constructed from the same property tree with only the tag key erased', 7)
     inst = {(f.file, f.line) for u in units.values() for f in u.funcs if f.cls and not f.j.get('dep')}
+    first_args = {}
     for u in units.values():
         enums = {e['q']: e for e in u.enums}
         for f in u.funcs:
@@ -654,6 +664,21 @@ def rule_C(ck, units):
                 if eq is None:
                     continue
                 groups = switch_cases(sw)
+                # first operand handed to the wrapped object in each case (which matrix: A, *A.local_backend(), ...), for the cross-member rule
+                if f.params and not f.j.get('ctor') and not f.j.get('dtor'):
+                    p0 = f.params[0]
+                    for labs_, stmts_ in groups:
+                        for s_ in stmts_:
+                            hit = None
+                            for c_ in walk(s_):
+                                if c_['k'] == 'call' and c_.get('a') and any(x['k'] == 'ref' and x['d'] == p0 for x in walk(c_['a'][0])):
+                                    hit = c_
+                                    break
+                            if hit is not None:
+                                role = (f.decl(p0)['n'], len(f.params))
+                                for lab_ in labs_:
+                                    first_args.setdefault((f.cls, f.decl(p0)['n']), {}).setdefault(lab_, {})[f.q.split('::')[-1]] = (show(hit['a'][0]), f.where(hit))
+                                break
                 labels = [l for g in groups for l in g[0]]
                 names = [x['n'] for x in enums[eq]['e']]
                 missing = [n for n in names if n not in labels]
@@ -725,6 +750,26 @@ def rule_C(ck, units):
                             bad = labs[0]
                     ok = len(erased) == 1 and passes
                     ck.ob('C.dispatch-prm', f.cls, f.where(), ok, '' if ok else ('keys erased: %s' % erased if len(erased) != 1 else 'case %s does not pass the property tree to the wrapped constructor' % bad))
+    finish_dispatch_args(ck, first_args)
+
+
+def finish_dispatch_args(ck, first_args):
+    ck.rule('C.dispatch-operand', 'sibling agreement across the members of a run-time wrapper: for one enumerator, every forwarding member (apply_pre, apply_post, apply, ...) hands the wrapped '
+                                  'object the same first operand (e.g. the distributed matrix A vs its local part *A.local_backend())', 10)
+    for cls, labs in sorted(first_args.items()):
+        for lab, ms in sorted(labs.items()):
+            if len(ms) < 2 or lab == '<default>':
+                continue
+            texts = {}
+            for m, (t, w) in ms.items():
+                texts.setdefault(t, []).append((m, w))
+            ok = len(texts) == 1
+            det = ''
+            if not ok:
+                major = max(texts, key=lambda t: len(texts[t]))
+                odd = [(m, w, t) for t, lst in texts.items() if t != major for m, w in lst]
+                det = 'for %s, %s passes `%s` (at %s) while %s pass `%s`' % (lab, odd[0][0], odd[0][2], odd[0][1], ', '.join(sorted(m for m, _ in texts[major])), major)
+            ck.ob('C.dispatch-operand', '%s|%s|%s' % (cls[0], cls[1], lab), (sorted(ms.values())[0][1]), ok, det)
 
 
 # ----------------------------------------------------- E: unknown-key reporting
